@@ -1,7 +1,7 @@
 (* C11 property theorems: statements closed by [exact], each followed by Print Assumptions.
    All are over the verb models of C11/Model.v -- the definitions C11/Harness.v runs against the real mlr --
    for every input stream (no size bound), every count, every group-by list, every evaluation history / oracle. *)
-From Miller Require Import Base.Record C11.Model C11.Checkers C11.Proofs C11.Proofs2 C11.CheckerProofs C11.SampleProofs.
+From Miller Require Import Base.Record C11.Model C11.UniqModel C11.Checkers C11.Proofs C11.Proofs2 C11.CheckerProofs C11.SampleProofs C11.UniqProofs C11.ChainProofs.
 From Coq Require Import Permutation.
 Open Scope Z_scope.
 
@@ -295,4 +295,120 @@ Proof.
   repeat split; try (vm_compute; reflexivity).
   - intros r Hr. cbn in Hr. repeat (destruct Hr as [<-|Hr]; [reflexivity|]). destruct Hr.
   - vm_compute. discriminate.
+Qed.
+
+(* ---- then-chains: `mlr v1 then v2 then ...` of selecting verbs selects, at each of the three strengths
+   (membership / sub-multiset / subsequence), by induction on the chain *)
+Theorem C11_then_chains_select : forall vs,
+  (Forall selects vs -> selects (chain vs))
+  /\ (Forall selects_submultiset vs -> selects_submultiset (chain vs))
+  /\ (Forall selects_in_order vs -> selects_in_order (chain vs)).
+Proof. exact (fun vs => conj (chain_selects vs) (conj (chain_selects_submultiset vs) (chain_selects_in_order vs))). Qed.
+Print Assumptions C11_then_chains_select.
+
+(* which verb is in which class (subsequence => sub-multiset => membership); bootstrap draws with replacement and is in
+   the membership class only (C11_selects_only); head -n -k -g: membership and per-group content (C11_head_negative_per_group) *)
+Theorem C11_selecting_verb_classes :
+  ((forall k g, 0 <= k -> selects_in_order (head k g))
+   /\ (forall k, 0 < k -> selects_in_order (head (- k) None))
+   /\ (forall n fs, selects_in_order (tail n true fs))
+   /\ (forall n b e fs, selects_in_order (decimate n b e fs))
+   /\ (forall isf inv vs, selects_in_order (filter_verb isf inv vs))
+   /\ (forall mt i v, selects_in_order (grep mt i v))
+   /\ (forall mode names mt, selects_in_order (having_fields mode names mt))
+   /\ selects_in_order uniq_a /\ selects_in_order skip_trivial /\ selects_in_order nothing)
+  /\ ((forall n plus fs, selects_submultiset (tail n plus fs))
+      /\ selects_submultiset tac
+      /\ (forall us, selects_submultiset (shuffle us))
+      /\ (forall fs, selects_submultiset (group_by fs))
+      /\ selects_submultiset group_like
+      /\ (forall k fs ds, 0 <= k -> forall l, (List.length l <= List.length ds)%nat -> exists rest, Permutation l (sample k fs ds l ++ rest)))
+  /\ (forall f, selects_in_order f -> selects_submultiset f) /\ (forall f, selects_submultiset f -> selects f).
+Proof. exact (conj in_order_verbs (conj submultiset_verbs (conj in_order_submultiset submultiset_incl))). Qed.
+Print Assumptions C11_selecting_verb_classes.
+
+(* ---- grep: for EVERY matcher (the regex library is a parameter) grep and grep -v split the input, each record on
+   exactly one side, order kept; counts add up.  Same for having-fields --any-matching / --none-matching. *)
+Theorem C11_grep_partition : forall (mt : bytes -> bool) v l,
+  split3 l (grep mt false v l) (grep mt true v l)
+  /\ (List.length (grep mt false v l) + List.length (grep mt true v l) = List.length l)%nat
+  /\ Permutation (grep mt false v l ++ grep mt true v l) l
+  /\ (forall names, split3 l (having_fields HAnyMatching names mt l) (having_fields HNoneMatching names mt l)).
+Proof.
+  exact (fun mt v l => conj (grep_partition mt v l) (conj (proj1 (grep_count mt v l)) (conj (proj2 (grep_count mt v l))
+        (fun names => having_any_none_partition names mt l)))).
+Qed.
+Print Assumptions C11_grep_partition.
+
+(* ---- uniq -g / -x (without counts): the projection on the grouping fields of the FIRST record of each group, in
+   input order (the records `head -n 1 -g` keeps); without -x the grouping key is the one of head/tail/group-by *)
+Theorem C11_uniq_g_first_of_each_group : forall inv fs l,
+  exists sel, uniq_g inv fs l = map (uniq_proj inv fs) sel
+              /\ sublist sel l
+              /\ (forall r, In r sel -> has_key (uniq_key inv fs) r = true)
+              /\ (forall g, group_of (uniq_key inv fs) g sel = firstn 1 (group_of (uniq_key inv fs) g l)).
+Proof. exact uniq_g_spec. Qed.
+Print Assumptions C11_uniq_g_first_of_each_group.
+
+(* ---- uniq -c / count-distinct: one record per group in first-appearance order = the projection of the group's first
+   record plus ONLY the count field (its size); the counts add up to the number of records having the grouping fields;
+   uniq -n / count-distinct -n print the number of groups *)
+Theorem C11_uniq_counts : forall inv fs oname l,
+  let keyf := uniq_key inv fs in
+  uniq_c inv fs oname l
+  = map (fun g => let xs := group_of keyf g l in put oname (dec_of_Z (Z.of_nat (List.length xs))) (uniq_proj inv fs (hd [] xs)))
+        (dkeys keyf l)
+  /\ fold_right (fun g acc => (List.length (group_of keyf g l) + acc)%nat) O (dkeys keyf l) = List.length (filter (has_key keyf) l)
+  /\ uniq_n inv fs l = [[(B "count", dec_of_Z (Z.of_nat (List.length (dkeys keyf l))))]].
+Proof. exact (fun inv fs oname l => conj (uniq_c_spec inv fs oname l) (conj (uniq_counts_sum inv fs l) (uniq_n_spec inv fs l))). Qed.
+Print Assumptions C11_uniq_counts.
+
+(* ---- nothing invented by the projection: every field it shows is a field of the record, with its value; with -x no
+   excluded field is shown, without -x only named fields *)
+Theorem C11_uniq_projection_only_selects_fields : forall inv fs r kv, In kv (uniq_proj inv fs r) ->
+  get (fst kv) r = Some (snd kv) /\ In (fst kv) (uniq_names inv fs r) /\ (inv = true -> mem (fst kv) fs = false).
+Proof.
+  exact (fun inv fs r kv H => conj (uniq_proj_fields inv fs r kv H) (conj (uniq_proj_names inv fs r kv H)
+        (fun E => uniq_x_excludes fs r kv (eq_ind inv (fun b => In kv (uniq_proj b fs r)) H true E)))).
+Qed.
+Print Assumptions C11_uniq_projection_only_selects_fields.
+
+(* ---- uniq / count-distinct -x (code as repaired by /repo 30bef5caa): records in one group have the same remaining
+   field NAMES (names non-empty, without ',' and ';'), and the same remaining sub-record when no value has a comma;
+   the unrepaired key (values only) merged x=3 with y=3 *)
+Theorem C11_uniq_x_groups_by_names_and_values : forall fs r1 r2 k,
+  Forall plain_name (keys_except fs r1) -> Forall plain_name (keys_except fs r2) ->
+  uniq_key true fs r1 = Some k -> uniq_key true fs r2 = Some k ->
+  keys_except fs r1 = keys_except fs r2
+  /\ ((forall v, In v (values r1) -> comma_free v) -> (forall v, In v (values r2) -> comma_free v) ->
+      uniq_proj true fs r1 = uniq_proj true fs r2).
+Proof. exact uniq_x_key_faithful. Qed.
+Print Assumptions C11_uniq_x_groups_by_names_and_values.
+
+Theorem C11_uniq_x_unqualified_key_merged_names_refuted :
+  exists fs r1 r2, keys_except fs r1 <> keys_except fs r2
+                   /\ uniq_key_unqualified true fs r1 = uniq_key_unqualified true fs r2
+                   /\ uniq_key true fs r1 <> uniq_key true fs r2.
+Proof. exact uniq_x_unqualified_merged. Qed.
+Print Assumptions C11_uniq_x_unqualified_key_merged_names_refuted.
+
+(* ---- uniq -a -c: the records of uniq -a, each with ONLY its number of occurrences prepended; uniq -a -n their number *)
+Theorem C11_uniq_a_counts : forall oname l,
+  uniq_a_c oname l = map (fun r => prepend oname (dec_of_Z (occurrences r l)) r) (uniq_a l)
+  /\ uniq_a_n oname l = [[(oname, dec_of_Z (Z.of_nat (List.length (uniq_a l))))]].
+Proof. exact (fun oname l => conj (uniq_a_c_spec oname l) (uniq_a_n_spec oname l)). Qed.
+Print Assumptions C11_uniq_a_counts.
+
+Example C11_nonvacuous_uniq :
+  uniq_g false [B "a"] ex_stream = [[(B "a", B "pan")]; [(B "a", B "eks")]]
+  /\ uniq_c false [B "a"] (B "count") ex_stream = [[(B "a", B "pan"); (B "count", B "3")]; [(B "a", B "eks"); (B "count", B "2")]]
+  /\ uniq_n true [B "b"] ex_stream = [[(B "count", B "3")]]
+  /\ uniq_g true [B "b"] ex_stream = [[(B "a", B "pan")]; [(B "a", B "eks")]; []]
+  /\ uniq_a_c (B "n") (ex_stream ++ ex_stream) = map (prepend (B "n") (B "2")) ex_stream
+  /\ Forall plain_name (keys_except [B "b"] (nth 0 ex_stream []))
+  /\ chain [head 2 (Some [B "a"]); tac; grep (substr_match false (B "pan")) false false] ex_stream = [nth 3 ex_stream []; nth 0 ex_stream []]
+  /\ grep (substr_match false (B "a=pan,")) true false ex_stream = [nth 1 ex_stream []; nth 2 ex_stream []; nth 4 ex_stream []].
+Proof.
+  repeat split; try (vm_compute; reflexivity).
+  vm_compute. repeat constructor; try discriminate; intros H; cbn in H; intuition discriminate.
 Qed.
